@@ -13,7 +13,7 @@ RULE = ("ops {sigmoid, tanh, selu, softmax, log_softmax (every dim, ranks 1-3), 
 ASSUMPTIONS = ["single-precision accuracy relative to the input magnitude is read as |err| <= 1e-5*max(1,max|x|) + 1e-5*|exact|, for both dtypes",
                "float32 cases: the exact result is computed in float64 from the float32-rounded inputs",
                "RuntimeWarnings (overflow in exp with a correct finite final result) are ignored"]
-SHARD_TIMEOUT = {"quick": 600, "thorough": 1800}
+SHARD_TIMEOUT = {"quick": 900, "thorough": 3600}
 SWEEP = [0.0, 1e-6, 1.0, -1.0, 20.0, -20.0, 88.0, -88.0, 89.0, -89.0, 100.0, -100.0, 710.0, -710.0, 1e3, -1e3, 1e4, -1e4]
 OPS = ["sigmoid", "tanh", "selu", "softmax", "log_softmax", "cross_entropy", "bce_with_logits"]
 
